@@ -7,6 +7,12 @@ PENDING = "check not built yet in this session (construction order: DESIGN.md se
 NOT_APPLICABLE = {("C%02d" % i): PENDING for i in range(1, 21)}
 
 TEXT = {
+    "C11": {
+        "text": "Proved: for the documented cells of the kind x Go type matrix Marshal followed by Unmarshal into a zero value returns the value in canonical form; zero-valued fields without keepzero leave the message untouched; Unmarshal leaves struct fields of absent message fields untouched; the plain []byte target is refuted (F14, recorded finding). The model of the reflection loops, tag resolution and type switches is compared with the library over the whole matrix with struct types built at run time, nested to depth 3, and the oracle checks presence and the round trip directly and via Pack/Unpack (partial: whole-struct theorem not yet proved).",
+        "design_ref": "DESIGN.md section 6 C11",
+        "note": "Trusted: Coq kernel, hand-written model of the Marshal/Unmarshal reflection (validated by correspondence), reflect.StructOf-based harness.",
+        "technique": "Rocq theorems over a Gallina model + differential correspondence + property oracle",
+    },
     "C17": {
         "text": "Proved: ImportJSON is total on every parsed document (error or spec, never a panic), the encoding / prefix name tables are mutually inverse on the exportable vocabulary and agree with the live maps regenerated from specs/builder.go, padding descriptions import back to the same padder. The model of export and import is compared with the library on generated specs (exported document as a canonical tree, imported spec as a term) and on mutated documents; the oracle checks the structural round trip, byte-identical re-export, determinism and identical behaviour on the real library (partial: the export/import identity for whole spec trees is not yet a theorem).",
         "design_ref": "DESIGN.md section 6 C17",
